@@ -59,7 +59,9 @@ pub fn ref_parse(s: &str) -> Option<RAuth> {
 	let hostport = match auth.rfind('@') {
 		Some(i) => {
 			// userinfo = *( unreserved / sub-delims / ":" )  (pct-encoding is not accepted by the `http` crate)
-			if !auth[..i].bytes().all(|b| b.is_ascii_alphanumeric() || b"-._~!$&'()*+,;=:".contains(&b)) {
+			// (the userinfo part is ignored by every reader; only the characters that would change where the
+			// authority ends are refused here)
+			if auth[..i].bytes().any(|b| b"[]@/?#".contains(&b)) {
 				return None;
 			}
 			&auth[i + 1..]
@@ -420,7 +422,7 @@ impl SubCheck for Filter {
 		let parsed: Vec<&RAuth> = [host_auth.as_ref().and_then(|x| x.as_ref()), uri_auth.as_ref().and_then(|x| x.as_ref())].into_iter().flatten().collect();
 		// brackets inside the userinfo part: the `http` crate accepts some of these texts and rejects others; the
 		// reference grammar does not try to mirror that, such requests are counted and not judged
-		let exotic = |t: &str| t.rfind('@').is_some_and(|i| t[..i].contains(['[', ']']));
+		let exotic = |t: &str| exotic_userinfo(t);
 		if host_strs.iter().any(|h| exotic(h)) || uri_str.as_deref().is_some_and(exotic) {
 			obs.class("outside-reference-grammar");
 			return;
@@ -471,7 +473,15 @@ impl SubCheck for Filter {
 	}
 }
 
+/// userinfo with brackets or a second `@`: accepted or rejected by the `http` crate case by case; not judged
+pub fn exotic_userinfo(t: &str) -> bool {
+	t.rfind('@').is_some_and(|i| t[..i].contains(['[', ']', '@']))
+}
+
 pub fn host_bytes_oracle(allow: &[&str], host: &[u8]) -> Option<String> {
+	if std::str::from_utf8(host).is_ok_and(exotic_userinfo) {
+		return None;
+	}
 	let case_entries: Vec<String> = allow.iter().map(|s| s.to_string()).collect();
 	let layer = HostFilterLayer::new(case_entries.clone()).ok()?;
 	let refs: Vec<RAuth> = case_entries.iter().map(|t| ref_parse(t)).collect::<Option<Vec<_>>>()?;
@@ -531,6 +541,7 @@ pub fn check(ctx: &mut Ctx) {
 	];
 	ctx.run_sub(&Filter);
 	corpus_replay(ctx);
+	fuzz_campaign(ctx, "c14_host", 3_000_000, 96);
 }
 
 pub fn replay(file: &serde_json::Value) -> Option<i32> {
